@@ -1225,6 +1225,7 @@ func convertNilRule(c *Ctx, r *R) {
 
 func ruleRepString(c *Ctx, r *R) {
 	stringDataRule(c, r)
+	stringOfRunesRule(c, r)
 	equalsKindsRule(c, r)
 	convertNilRule(c, r)
 	ctors := c.ctorTags()
@@ -1774,3 +1775,53 @@ func init() {
 }
 
 var debugAppend bool
+
+// stringOfRunesRule: string(x) of a []rune / []int32 encodes every element as UTF-8; only a
+// byte slice keeps its elements as bytes. Decided on Value.convert's TypeString case: it
+// contains a Go conversion string(<[]rune>) besides the string(<[]byte>) one.
+func stringOfRunesRule(c *Ctx, r *R) {
+	fd := c.Func("Value.convert")
+	if fd == nil {
+		r.undecided("string of runes", "-", "Value.convert not found")
+		return
+	}
+	var clause *ast.CaseClause
+	ast.Inspect(fd.Body, func(n ast.Node) bool {
+		if cc, ok := n.(*ast.CaseClause); ok && clause == nil {
+			for _, e := range cc.List {
+				if isIdent(e, "TypeString") {
+					clause = cc
+				}
+			}
+		}
+		return true
+	})
+	if clause == nil {
+		r.undecided("string of runes", c.Pos(fd), "no case TypeString in Value.convert")
+		return
+	}
+	runes, bytes := false, false
+	ast.Inspect(clause, func(n ast.Node) bool {
+		call, ok := n.(*ast.CallExpr)
+		if !ok || len(call.Args) != 1 {
+			return true
+		}
+		if t, isConv := c.IsConversion(call); !isConv || !types.Identical(t.Underlying(), types.Typ[types.String]) {
+			return true
+		}
+		if st, ok := c.TypeOf(call.Args[0]).Underlying().(*types.Slice); ok {
+			if b, ok := st.Elem().Underlying().(*types.Basic); ok {
+				switch b.Kind() {
+				case types.Int32:
+					runes = true
+				case types.Uint8:
+					bytes = true
+				}
+			}
+		}
+		return true
+	})
+	r.check(bytes, "string of bytes", c.Pos(clause), "string(<[]byte>)", "Value.convert no longer builds a string from the bytes of a byte slice")
+	r.check(runes, "string of runes", c.Pos(clause), "string(<[]rune>) encodes code points as UTF-8",
+		"Value.convert turns every slice into a string byte by byte: string([]rune{'h', 'é', '世'}) truncates each code point to its low byte instead of encoding it as UTF-8")
+}
